@@ -101,20 +101,44 @@ def c04_cases(tier, seed):
     return cs
 
 
+def d18_cases():
+    cs = []
+    # an attribute whose local name is xmlns but which has a prefix is an ordinary attribute (D18)
+    for pre, post in (("", ""), ("a='1' ", ""), ("", " b='2'"), ("xmlns='d' ", " c='3'")):
+        attrs = []
+        if "a=" in pre: attrs.append(("", "a", "1"))
+        attrs.append(("p", "xmlns", "v"))
+        if post: attrs.append(("", post.split("=")[0].strip(), post.split("'")[1]))
+        decls = [("p", "u")] + ([("", "d")] if "xmlns='d'" in pre else [])
+        e = spec.Elem("", "e", attrs, decls, [spec.Elem("", "c", [], [], [])])
+        cs.append(Case("<e xmlns:p='u' " + pre + "p:xmlns='v'" + post + "><c/></e>", "nc", True,
+                       meta={"gen": "prefixed-xmlns-attr", "expect_content": spec.expected_content(e, spec.Doc(e))}))
+    return cs
+
+
 def c05_cases(tier, seed):
     q = tier == "quick"
     cs = gens.g_pieces_attr(3 if q else 4)
     cs += gens.g_cst(seed, 800 if q else 6000, flags="nc", renderings=2, hoist=False)
     # attribute lists interleaved with declarations, 0..40 attributes
     rnd = random.Random(seed + 1)
-    for k in list(range(0, 12)) + [20, 40]:
-        attrs = [("", "a%d" % i, "v%d" % i) for i in range(k)]
-        decls = [("p%d" % i, "u%d" % i) for i in range(rnd.randint(0, 3))]
-        e = spec.Elem("", "r", attrs, decls, [])
-        for _ in range(3):
+    for k in list(range(0, 12)) + [15, 16, 17, 18, 20, 33, 40]:
+        for variant in range(3):
+            # variant 0: names in ascending order; 1: shuffled names; 2: shuffled, and some local names
+            # occur twice, once unprefixed and once with a prefix bound to another namespace
+            names = ["a%02d" % i for i in range(k)]
+            if variant:
+                rnd.shuffle(names)
+            attrs = [("", n, "v" + n) for n in names]
+            decls = [("p%d" % i, "u%d" % i) for i in range(rnd.randint(1 if variant == 2 else 0, 3))]
+            if variant == 2 and k:
+                for n in rnd.sample(names, min(len(names), 1 + k // 8)):
+                    attrs.insert(rnd.randint(0, len(attrs)), (rnd.choice(decls)[0], n, "w" + n))
+            e = spec.Elem("", "r", attrs, decls, [])
             d = spec.Doc(e)
             txt, _r = spec.render(d, rnd)
-            cs.append(Case(txt, "nc", True, meta={"gen": "attr-list", "n": k, "expect_content": spec.expected_content(e, d)}))
+            cs.append(Case(txt, "nc", True, meta={"gen": "attr-list", "n": len(attrs), "variant": variant, "expect_content": spec.expected_content(e, d)}))
+    cs += d18_cases()
     # the attribute leak across an entity boundary (D9)
     cs.append(Case("<!DOCTYPE r [<!ENTITY p '<b a=\"1\"'>]><r>&p;<c/></r>", "nc", True, meta={"gen": "leak", "illformed": "start tag split by an entity boundary"}))
     return cs
@@ -138,6 +162,7 @@ def c06_cases(tier, seed):
     depth = 30 if q else 200
     s = "".join("<e xmlns:p='u%d'>" % i for i in range(depth)) + "<p:x/>" + "</e>" * depth
     cs.append(Case(s, "c", True, meta={"gen": "ns-deep"}))
+    cs += d18_cases()
     return cs
 
 
@@ -678,6 +703,12 @@ def c18_cases(tier, seed):
         cs.append(Case("<r><![CDATA[" + body + "]]></r>", "ncb", True, meta={"gen": "fast-cdata", "expect_borrowed_text": borrowed, "text_node": 2}))
     for body, borrowed in (("v", True), ("a b", True), ("", True), ("a&amp;b", False), ("a\tb", False), ("a\nb", False), ("a\rb", False), ("é", True), ("a&#9;", False)):
         cs.append(Case("<r k='" + body + "'/>", "ncb", True, meta={"gen": "fast-attr", "expect_borrowed_attr": borrowed}))
+        # the same inside an element that comes from an entity's replacement text (nested once and twice)
+        if "'" not in body:
+            cs.append(Case("<!DOCTYPE r [<!ENTITY e '<a k=\"" + body + "\"/>'>]><r>&e;</r>", "ncb", True, meta={"gen": "fast-attr-in-entity", "expect_borrowed_attr": borrowed}))
+            cs.append(Case("<!DOCTYPE r [<!ENTITY e '<a k=\"" + body + "\"/>'><!ENTITY f 'x&e;y'>]><r>&f;</r>", "ncb", True, meta={"gen": "fast-attr-in-entity2", "expect_borrowed_attr": borrowed}))
+    for body, borrowed in (("plain", True), ("a&amp;b", False), ("é中", True)):
+        cs.append(Case("<!DOCTYPE r [<!ENTITY e '<a>" + body + "</a>'>]><r>&e;</r>", "ncb", True, meta={"gen": "fast-text-in-entity", "expect_borrowed_text": borrowed, "text_node": 3}))
     return cs
 
 
@@ -962,8 +993,13 @@ def run_property(pid, tier, seed):
     harness_dbg = None
     model_ok = True
     with rxlib.Lock("build"):
+        untied = []
         try:
             rxlib.gen_tables()
+            try:
+                untied = json.load(open(os.path.join(BUILD, "tie_status.json")))["untied"]
+            except (OSError, ValueError, KeyError):
+                untied = []
         except rxlib.TieLost as e:
             proof_problems.append("translator cannot read the source any more (tie lost): %s" % e)
         # the model first (everything depends on it), then only what this property's theorems need,
@@ -1134,6 +1170,9 @@ def run_property(pid, tier, seed):
             "input_length_log2_histogram": {str(k): v for k, v in sorted(len_hist.items())},
             "runtime_families": extra_info, "build_seconds": round(t_build, 1),
             "extraction_spot_check": {"cases_evaluated_inside_coq": spot_n, "mismatches": len(spot_mism)},
+            "translator_sections_untied": untied,
+            "translator_note": ("all groups of Generated.v were read from the current source" if not untied else
+                                "the translator could not read %d group(s) of constants from the rewritten source; for them the values of the pinned source were used and the model/implementation correspondence (with its boundary inputs for exactly these constants) is the only tie" % len(untied)),
         },
         "assumptions": ["inputs are valid UTF-8 (guaranteed by &str)", "length of the input < 2^32",
                         "the dump printers of harness and driver print what the API returns"],
